@@ -37,7 +37,7 @@ use crate::drivers::CopyDriver;
 use crate::errors::{Result, XcpError};
 use crate::feedback::{StatusUpdate, StatusUpdater};
 use crate::operations::{CopyHandle, Operation, entry_exists, tree_walker};
-use libfs::{copy_file_offset, map_extents, merge_extents, probably_sparse};
+use libfs::{copy_file_offset, map_extents, merge_extents, next_sparse_segments, probably_sparse};
 
 // ********************************************************************** //
 
@@ -195,7 +195,17 @@ fn queue_file_blocks(
             }
             Ok(queued)
         } else {
-            queue_whole_file()
+            // No extent map (FIEMAP unsupported, e.g. tmpfs): find the
+            // data segments with SEEK_DATA/SEEK_HOLE rather than
+            // copying, and thereby filling, the holes.
+            let mut queued = 0;
+            let mut pos = 0;
+            while pos < len {
+                let (next_data, next_hole) = next_sparse_segments(&harc.infd, &harc.outfd, pos)?;
+                queued += queue_file_range(&harc, next_data..next_hole, pool, status_channel)?;
+                pos = next_hole;
+            }
+            Ok(queued)
         }
     } else {
         queue_whole_file()
